@@ -6,6 +6,12 @@ IsDocA == <<TRUE, FALSE, TRUE, FALSE, TRUE>>
 \* stream B: "\n" "[1]\n" "[2]\n" "\n" "\n"   (blank head and tail)   offsets 1, 5, 9, 10, 11
 EndsB == <<1, 5, 9, 10, 11>>
 IsDocB == <<FALSE, TRUE, TRUE, FALSE, FALSE>>
+NoBad5 == <<FALSE, FALSE, FALSE, FALSE, FALSE>>
+\* stream C: "[1]\n" "[2\n" "[3]\n" "\n" "[5]"   the second line is malformed   offsets 4, 7, 11, 12 (N = 15)
+EndsC == <<4, 7, 11, 12>>
+IsDocC == <<TRUE, TRUE, TRUE, FALSE, TRUE>>
+IsBadC == <<FALSE, TRUE, FALSE, FALSE, FALSE>>
+ErrC == {16, 9}
 ErrA == 0..16
 ErrB == 0..12
 ====
